@@ -113,7 +113,56 @@ where
     V: ExactSizeIterator<Item = T>,
 {
     let a = values.len();
+    // what `size_hint` announces must not contradict `len()` -- the number of elements the chunk then yields: `lo <= len <= hi`
+    // (the wrapper's chunk iterator keeps std's default `(0, None)`, which is imprecise but not wrong)
+    let hint_ok = |v: &V| {
+        let (lo, hi) = v.size_hint();
+        if lo > v.len() || hi.map_or(false, |h| h < v.len()) {
+            tlog!("hint-mismatch size_hint=({}, {:?}) len={}", lo, hi, v.len());
+        }
+    };
+    hint_ok(&values);
     let mut got: Vec<u64> = untracked(Vec::new);
+    if let Take::NextLast(kk) = k {
+        // `kk` calls of `next()`, then `Iterator::last()` (an override in the crate is what runs): it consumes the iterator
+        let mut pulled = 0usize;
+        while pulled < kk {
+            match values.next() {
+                Some(x) => {
+                    let v = x.val();
+                    x.forget();
+                    untracked(|| got.push(v));
+                    pulled += 1;
+                }
+                None => break,
+            }
+        }
+        hint_ok(&values);
+        let left = values.len();
+        let r = catch_unwind(AssertUnwindSafe(|| values.last()));
+        match r {
+            Ok(Some(x)) => {
+                let v = x.val();
+                x.forget();
+                untracked(|| got.push(v));
+            }
+            Ok(None) => {}
+            Err(p) => {
+                log_taken(&got);
+                untracked(|| drop(got));
+                std::panic::resume_unwind(p);
+            }
+        }
+        let _ = left;
+        return untracked(|| {
+            let mut s = format!("ret chunk {} {} {}", begin, a, 0);
+            for v in &got {
+                let _ = write!(s, " {}", v);
+            }
+            drop(got);
+            s
+        });
+    }
     if matches!(k, Take::Fold | Take::Count) {
         // `Iterator::fold` / `Iterator::count` take the chunk iterator by value (an override of either in the crate is
         // what runs); whatever they leave unconsumed is dropped by the iterator inside the call
@@ -193,6 +242,7 @@ where
             }
         }
     }
+    hint_ok(&values);
     let l = values.len();
     // a destructor of the chunk's remainder may panic (fault injection): what the caller took before is still the
     // caller's, so it is recorded (`taken …`) before the panic goes on
